@@ -8,13 +8,13 @@ Extraction "model.ml"
   DD.dd_eqb DD.mk DD.unpack DD.evalS DD.evalL DD.eval DD.reducedb DD.of_fun
   DD.apply2 DD.apply1 DD.copy DD.all_asg DD.table
   Build.build Build.build_spec Build.const_dd Build.var_dd Build.matches
-  Scalar.scalar2 Scalar.scalar2_undefined Scalar.compl Scalar.conv Scalar.ev_undefined Scalar.ev_scalar2 Scalar.ev_compare Scalar.conv_to_ev Scalar.conv_from_ev
+  Scalar.scalar2 Scalar.scalar2_undefined Scalar.compl Scalar.conv Scalar.ev_undefined Scalar.ev_scalar2 Scalar.ev_compare Scalar.conv_to_ev Scalar.conv_from_ev Scalar.evt_encode Scalar.evt_decode Scalar.evp_encode Scalar.evp_decode
   Terminal.getIntegerHandle Terminal.getRealHandle Terminal.setFromHandle_INTEGER
   Terminal.setFromHandle_REAL Terminal.setFromHandle_BOOLEAN Terminal.intMin Terminal.intMax
   MemSpec.accept MemSpec.fl_init MemSpec.fl_request MemSpec.fl_recycle
   Audit.audit Audit.dom_ok EvDD.ev_of_fun EvDD.ev_eval EvDD.ev_reduced
   Reach.dpost Reach.dpre Reach.dist_bfs Reach.dmin
-  Reach.sat_dd Reach.reach_fs_dd Reach.post_dd Reach.pre_dd Reach.reach_dd Reach.rreach_dd Reach.vm_dd Reach.mv_dd Reach.rel_sz Reach.cross_dd
+  Reach.sat_dd_fast Reach.reach_fs_dd_fast Reach.reach_dd_fast Reach.rreach_dd_fast Reach.post_dd Reach.pre_dd Reach.reach_dd Reach.rreach_dd Reach.vm_dd Reach.mv_dd Reach.rel_sz Reach.cross_dd
   Enum.enum Enum.cardinality Enum.node_count Enum.edge_count Enum.members Enum.index_table Enum.get_element
   Reorder.permute_dd
   Lifecycle.ls_init Lifecycle.lstep.
